@@ -258,7 +258,7 @@ func runC05(c *report.Ctx) {
 			if !ok || call.Call.StaticCallee() == nil {
 				return
 			}
-			n := an.FuncKey(call.Call.StaticCallee())
+			n := an.CanonKeyOf(call.Call.StaticCallee())
 			if n != "fmt.Errorf" && n != "errors.New" && n != "fmt.Sprintf" {
 				return
 			}
